@@ -385,6 +385,8 @@ theorem createOperand_multiWord {row : InstrRow} (hp : row.isPseudo = true) (hd 
 
 theorem isDigit_isWord {c : Char} (h : isDigit c = true) : isWord c = true := by simp [isWord, h]
 
+theorem isDigit_isSym {c : Char} (h : isDigit c = true) : isSym c = true := by simp [isSym, isWord, h]
+
 theorem takeWhile_all {α} (p : α → Bool) (l : List α) (h : ∀ c ∈ l, p c = true) : l.takeWhile p = l := by
   induction l with
   | nil => rfl
@@ -405,10 +407,10 @@ theorem splitExpr_dec {x : Str} (hx : IsDecLit x) : splitExpr x = none := by
     have hnd : (a == '$') = false := by simpa using (isDigit_ne ha).2.2.1
     have h1 : (a :: t).takeWhile (· == '$') = [] := by simp [hnd]
     have h2 : (a :: t).dropWhile (· == '$') = a :: t := by simp [hnd]
-    have h3 : (a :: t).takeWhile isWord = a :: t :=
-      takeWhile_all _ _ (fun c hc => isDigit_isWord (hall c hc))
-    have h4 : (a :: t).dropWhile isWord = [] :=
-      dropWhile_all _ _ (fun c hc => isDigit_isWord (hall c hc))
+    have h3 : (a :: t).takeWhile isSym = a :: t :=
+      takeWhile_all _ _ (fun c hc => isDigit_isSym (hall c hc))
+    have h4 : (a :: t).dropWhile isSym = [] :=
+      dropWhile_all _ _ (fun c hc => isDigit_isSym (hall c hc))
     simp only [splitExpr, h2, h3, h4]
     simp
 
@@ -470,7 +472,7 @@ theorem numericOfStr_neg {ds : Str} (hx : IsDecLit ds) (sizeHint : Option Nat) (
 
 theorem splitExpr_neg (ds : Str) : splitExpr ('-' :: ds) = none := by
   have h1 : ('-' == '$') = false := by decide
-  have h2 : isWord '-' = false := by decide
+  have h2 : isSym '-' = false := by decide
   simp [splitExpr, h1, h2]
 
 theorem createV_neg {ds : Str} (hx : IsDecLit ds) (hv : parseBase 10 ds ≤ 32768) :
